@@ -299,16 +299,23 @@ OutConsumers == {"format_d", "write"}
 (*    compared as cells; as soon as one side is boxed the VALUES are compared;                    *)
 (*  - compare/3, sorting (heap_iter.rs TermOrderCategory::Integer) and arithmetic comparison       *)
 (*    (Number::try_from the cell) order the VALUES;                                                *)
-(*  - first-argument indexing of a predicate with >= 2 clauses (switch_on_term ->                 *)
-(*    switch_on_constant) looks the raw CELL up in a hash map: a boxed cell is a pointer and       *)
-(*    equals no key but itself, so no clause is selected for a boxed argument; a boxed clause key   *)
-(*    that fits a fixnum is also entered under its fixnum cell (indexing.rs                         *)
-(*    constant_key_alternatives), so a fixnum argument finds it;                                    *)
+(*  - first-argument indexing (switch_on_term -> switch_on_constant) looks the raw CELL of a       *)
+(*    fixnum argument up in a hash map; a boxed clause key that fits a fixnum is also entered      *)
+(*    under its fixnum cell (indexing.rs constant_key_alternatives), so a fixnum argument finds    *)
+(*    it.  A boxed argument is a pointer and equals no key but itself: since /repo commit 86aa075  *)
+(*    select_switch_on_term_index sends boxed integers down the variable path (every clause is     *)
+(*    tried, head unification decides).  Before that commit they went to the constant switch and   *)
+(*    no clause was selected - the design-level counter-example this model produced for D3; set    *)
+(*    BoxedArgTakesVariablePath to FALSE to see it again (MC_C05 then lists the (consumer, path)    *)
+(*    classes that do not refine in its header).                                                    *)
 (*  - every other consumer obtains the value first (Number / usize conversion) and is modelled     *)
 (*    by its layer-A definition.                                                                   *)
 EqB(x, y)  == IF x.r = "fix" /\ y.r = "fix" THEN x.v = y.v ELSE Cmp(x.v, y.v) = 0
 CmpB(x, y) == LET k == Cmp(x.v, y.v) IN IF k < 0 THEN "<" ELSE IF k > 0 THEN ">" ELSE "="
-KeyB(x, k) == x.r = "fix" /\ FitsFix(k.v) /\ x.v = k.v       \* x: the argument cell, k: the clause key (another cell)
+BoxedArgTakesVariablePath == TRUE
+KeyB(x, k) ==                                   \* x: the argument cell, k: the clause key (another cell)
+  IF x.r = "box" THEN BoxedArgTakesVariablePath /\ EqB(x, k)
+  ELSE FitsFix(k.v) /\ x.v = k.v
 Lit(v)     == ReadB(v)                                 \* a literal in the goal or in a clause
 
 ConsumerB(c, x) ==
